@@ -12,3 +12,274 @@ Proof.
   - apply andb_true_iff in H. destruct H as [H1 H2]. apply Z.eqb_eq in H1. apply IHa in H2. subst. auto.
   - inversion H. subst. rewrite Z.eqb_refl. simpl. apply IHa. auto.
 Qed.
+
+(* ------------------------------------------------------------------ name -> path *)
+
+Lemma split_on_nonempty : forall sep s, split_on sep s <> [].
+Proof.
+  intros sep s. destruct s; simpl; [discriminate|].
+  destruct (Z.eqb z sep); [discriminate|]. destruct (split_on sep s); discriminate.
+Qed.
+
+Lemma split_on_app : forall sep s t, ~ In sep s ->
+  split_on sep (s ++ t) = (s ++ hd [] (split_on sep t)) :: tl (split_on sep t).
+Proof.
+  intros sep s t. induction s as [|c s IH]; intros Hn.
+  - simpl. pose proof (split_on_nonempty sep t). destruct (split_on sep t); [contradiction | reflexivity].
+  - simpl. destruct (Z.eqb c sep) eqn:E.
+    + apply Z.eqb_eq in E. exfalso. apply Hn. left. auto.
+    + rewrite IH by (intros H; apply Hn; right; auto). reflexivity.
+Qed.
+
+Lemma split_on_single : forall sep s, ~ In sep s -> split_on sep s = [s].
+Proof.
+  intros sep s H. rewrite <- (app_nil_r s) at 1. rewrite split_on_app by auto. simpl. rewrite app_nil_r. auto.
+Qed.
+
+Lemma split_join : forall sep segs, segs <> [] -> Forall (fun s => ~ In sep s) segs ->
+  split_on sep (join_with sep segs) = segs.
+Proof.
+  intros sep segs. induction segs as [|s r IH]; intros Hne Hall; [contradiction|].
+  inversion Hall as [|? ? Hs Hr]; subst.
+  destruct r as [|s2 r2].
+  - simpl. apply split_on_single. auto.
+  - change (join_with sep (s :: s2 :: r2)) with (s ++ sep :: join_with sep (s2 :: r2)).
+    rewrite split_on_app by auto.
+    simpl. rewrite Z.eqb_refl. simpl. rewrite app_nil_r. f_equal. apply IH; [discriminate | auto].
+Qed.
+
+(* 导入“A-B-C” resolves to A/B/C.zn below the main file's directory *)
+Theorem path_mapping : forall segs, segs <> [] -> Forall (fun s => ~ In c_dash s) segs ->
+  hd 0%Z (join_with c_dash segs) <> c_at ->
+  parse_lib_name (join_with c_dash segs) = (LibCustom, segs) /\
+  path_of_name (join_with c_dash segs) = add_zn segs.
+Proof.
+  intros segs Hne Hall Hat.
+  assert (H : parse_lib_name (join_with c_dash segs) = (LibCustom, segs)).
+  { unfold parse_lib_name. destruct (join_with c_dash segs) as [|c r] eqn:E.
+    - rewrite <- E. rewrite split_join; auto.
+    - simpl in Hat. destruct (Z.eqb c c_at) eqn:E2; [apply Z.eqb_eq in E2; contradiction|].
+      rewrite <- E. rewrite split_join; auto. }
+  split; auto. unfold path_of_name. rewrite H. reflexivity.
+Qed.
+
+Lemma add_zn_shape : forall pre last, add_zn (pre ++ [last]) = pre ++ [last ++ dot_zn].
+Proof.
+  induction pre as [|a pre IH]; intros last; simpl; auto.
+  rewrite IH. destruct (pre ++ [last]) eqn:E; auto. destruct pre; discriminate.
+Qed.
+
+(* 导入《@库》 is a library import under the library's registered name *)
+Lemma lib_name_parse : forall n, fst (parse_lib_name (c_at :: n)) = LibStd.
+Proof. intros n. unfold parse_lib_name. rewrite Z.eqb_refl. reflexivity. Qed.
+
+(* ------------------------------------------------------------------ scopes *)
+
+Lemma get_put_scope : forall l id s, get_scope_in (put_scope_in l id s) id = s.
+Proof.
+  induction l as [|[k s0] l IH]; intros id s; simpl.
+  - rewrite Nat.eqb_refl. auto.
+  - destruct (Nat.eqb k id) eqn:E; simpl; rewrite E; auto.
+Qed.
+
+Lemma cur_scope_set : forall st s, cur_scope (set_cur_scope st s) = s.
+Proof. intros st s. unfold cur_scope, set_cur_scope, cur_id. simpl. apply get_put_scope. Qed.
+
+Lemma scope_lookup_app : forall l1 l2 x,
+  scope_lookup (l1 ++ l2) x = match scope_lookup l1 x with Some y => Some y | None => scope_lookup l2 x end.
+Proof.
+  induction l1 as [|y l1 IH]; intros l2 x; simpl; auto. destruct (name_eqb (y_name y) x); auto.
+Qed.
+
+Lemma scope_set_const : forall l x y v, scope_lookup l x = Some y -> y_const y = true -> scope_set l x v = SetConst.
+Proof.
+  induction l as [|a l IH]; intros x y v Hl Hc; simpl in *; [discriminate|].
+  destruct (name_eqb (y_name a) x).
+  - inversion Hl; subst. rewrite Hc. auto.
+  - erewrite IH; eauto.
+Qed.
+
+(* state components that declarations in the current scope never touch *)
+Definition same_core (st st' : vm) : Prop :=
+  v_mods st' = v_mods st /\ v_edges st' = v_edges st /\ v_cs st' = v_cs st /\ v_frames st' = v_frames st /\
+  v_trace st' = v_trace st.
+
+Lemma same_core_refl : forall st, same_core st st.
+Proof. intros st. repeat split. Qed.
+
+Lemma same_core_trans : forall a b c, same_core a b -> same_core b c -> same_core a c.
+Proof. unfold same_core. intros a b c (A1&A2&A3&A4&A5) (B1&B2&B3&B4&B5). repeat split; congruence. Qed.
+
+Lemma set_cur_scope_core : forall st s, same_core st (set_cur_scope st s).
+Proof. intros st s. repeat split. Qed.
+
+Lemma declare_ok : forall st x v k e st', declare st x v k e = Some st' ->
+  same_core st st' /\
+  cur_scope st' = mkScope (mkSym x (sc_depth (cur_scope st)) k v e :: sc_syms (cur_scope st)) (sc_depth (cur_scope st)) /\
+  redeclared (sc_syms (cur_scope st)) (sc_depth (cur_scope st)) x = false.
+Proof.
+  intros st x v k e st' H. unfold declare, scope_declare in H.
+  destruct (redeclared (sc_syms (cur_scope st)) (sc_depth (cur_scope st)) x) eqn:E; [discriminate|].
+  inversion H; subst. split; [apply set_cur_scope_core|]. split; auto. apply cur_scope_set.
+Qed.
+
+Definition ext_sym (d ext : nat) (xv : name * value) : sym := mkSym (fst xv) d true (snd xv) (Some ext).
+
+Lemma declare_externals_ok : forall ext L st st',
+  declare_externals st ext L = (Ok, st') ->
+  same_core st st' /\
+  sc_depth (cur_scope st') = sc_depth (cur_scope st) /\
+  sc_syms (cur_scope st') = rev (map (ext_sym (sc_depth (cur_scope st)) ext) L) ++ sc_syms (cur_scope st).
+Proof.
+  intros ext L. induction L as [|[x v] L IH]; intros st st' H; simpl in H.
+  - inversion H; subst. split; [apply same_core_refl|]. split; auto.
+  - destruct (declare st x v true (Some ext)) as [st1|] eqn:E; [|discriminate].
+    apply declare_ok in E. destruct E as (C1 & S1 & _).
+    apply IH in H. destruct H as (C2 & D2 & S2).
+    split; [eapply same_core_trans; eauto|].
+    rewrite D2, S2, S1. simpl. split; auto.
+    rewrite <- app_assoc. reflexivity.
+Qed.
+
+Lemma declare_externals_res : forall ext L st r st',
+  declare_externals st ext L = (r, st') -> r = Ok \/ r = Err E_NameRedeclared.
+Proof.
+  intros ext L. induction L as [|[x v] L IH]; intros st r st' H; simpl in H.
+  - inversion H; auto.
+  - destruct (declare st x v true (Some ext)); [eauto | inversion H; auto].
+Qed.
+
+Lemma lookup_ext_syms : forall d ext L x,
+  match scope_lookup (rev (map (ext_sym d ext) L)) x with
+  | Some y => y_const y = true /\ y_ext y = Some ext /\ y_depth y = d /\ In (x, y_val y) L
+  | None => ~ In x (map fst L)
+  end.
+Proof.
+  intros d ext L x. induction L as [|[a v] L IH]; simpl; auto.
+  rewrite scope_lookup_app. destruct (scope_lookup (rev (map (ext_sym d ext) L)) x) as [y|] eqn:E.
+  - destruct IH as (A & B & C & D). repeat split; auto.
+  - simpl. destruct (name_eqb a x) eqn:E2.
+    + apply name_eqb_eq in E2. subst. simpl. repeat split; auto.
+    + intros [H | H]; [|contradiction]. subst. rewrite name_eqb_refl in E2. discriminate.
+Qed.
+
+Lemma assoc_find_In : forall A (l : list (name * A)) x v, assoc_find l x = Some v -> In (x, v) l.
+Proof.
+  induction l as [|[k w] l IH]; intros x v H; simpl in H; [discriminate|].
+  destruct (name_eqb k x) eqn:E.
+  - apply name_eqb_eq in E. inversion H; subst. left; auto.
+  - right. auto.
+Qed.
+
+Lemma select_exports_In : forall exps items x v,
+  In (x, v) (select_exports exps items) -> In x items /\ assoc_find exps x = Some v.
+Proof.
+  induction items as [|a items IH]; intros x v H; simpl in H; [contradiction|].
+  destruct (assoc_find exps a) as [w|] eqn:E.
+  - destruct H as [H | H].
+    + inversion H; subst. split; [left; auto | auto].
+    + apply IH in H. destruct H. split; [right; auto | auto].
+  - apply IH in H. destruct H. split; [right; auto | auto].
+Qed.
+
+Lemma select_exports_complete : forall exps items x v,
+  In x items -> assoc_find exps x = Some v -> In x (map fst (select_exports exps items)).
+Proof.
+  induction items as [|a items IH]; intros x v Hin Hf; [contradiction|].
+  simpl. destruct Hin as [Hin | Hin].
+  - subst. rewrite Hf. left. auto.
+  - destruct (assoc_find exps a); [right|]; eauto.
+Qed.
+
+Section Imports.
+  Variable fs : filesys.
+  Variable libs : libraries.
+  Variable ord_exports : list (name * value) -> list (name * value).
+  Variable ord_nodes : list nat -> list nat.
+  Hypothesis ord_exports_perm : forall l xv, In xv (ord_exports l) <-> In xv l.
+
+  (* the list of (name, value) an import statement declares *)
+  Definition imported_list (st : vm) (ext : nat) (items : list name) : list (name * value) :=
+    match items with
+    | [] => ord_exports (m_exports (get_mod st ext))
+    | _ => select_exports (m_exports (get_mod st ext)) items
+    end.
+
+  Lemma import_symbols_unfold : forall st ext items,
+    import_symbols ord_exports st ext items = declare_externals st ext (imported_list st ext items).
+  Proof. intros st ext items. unfold import_symbols, imported_list. destruct items; reflexivity. Qed.
+
+  (* an import either succeeds or fails with "redeclared" *)
+  Lemma import_symbols_res : forall st ext items r st',
+    import_symbols ord_exports st ext items = (r, st') -> r = Ok \/ r = Err E_NameRedeclared.
+  Proof. intros. rewrite import_symbols_unfold in H. eapply declare_externals_res; eauto. Qed.
+
+  (* exactly the imported list becomes visible, as constants that remember their home module; nothing else changes *)
+  Theorem import_symbols_exact : forall st ext items st',
+    import_symbols ord_exports st ext items = (Ok, st') ->
+    let L := imported_list st ext items in
+    same_core st st' /\
+    (forall x, In x (map fst L) ->
+       exists y, scope_lookup (sc_syms (cur_scope st')) x = Some y /\ y_const y = true /\ y_ext y = Some ext /\
+                 In (x, y_val y) L) /\
+    (forall x, ~ In x (map fst L) ->
+       scope_lookup (sc_syms (cur_scope st')) x = scope_lookup (sc_syms (cur_scope st)) x).
+  Proof.
+    intros st ext items st' H L. rewrite import_symbols_unfold in H. fold L in H.
+    apply declare_externals_ok in H. destruct H as (C & D & S).
+    split; auto. rewrite S. split; intros x Hx; rewrite scope_lookup_app;
+      pose proof (lookup_ext_syms (sc_depth (cur_scope st)) ext L x) as HL;
+      destruct (scope_lookup (rev (map (ext_sym (sc_depth (cur_scope st)) ext) L)) x) as [y|].
+    - destruct HL as (A & B & _ & E). exists y. auto.
+    - contradiction.
+    - destruct HL as (_ & _ & _ & E). exfalso. apply Hx. apply in_map_iff. exists (x, y_val y). auto.
+    - auto.
+  Qed.
+
+  (* "all": the declared names are exactly the export table's names *)
+  Lemma imported_all : forall st ext xv, In xv (imported_list st ext []) <-> In xv (m_exports (get_mod st ext)).
+  Proof. intros. simpl. apply ord_exports_perm. Qed.
+
+  (* "listed": exactly the listed names that the module exports *)
+  Lemma imported_listed : forall st ext items x, items <> [] ->
+    (In x (map fst (imported_list st ext items)) <->
+     In x items /\ exists v, assoc_find (m_exports (get_mod st ext)) x = Some v).
+  Proof.
+    intros st ext items x Hne. unfold imported_list. destruct items as [|a items]; [contradiction|].
+    split.
+    - intros H. apply in_map_iff in H. destruct H as [[x' v] [Hx Hin]]. simpl in Hx. subst.
+      apply select_exports_In in Hin. destruct Hin. split; eauto.
+    - intros [Hin [v Hv]]. eapply select_exports_complete; eauto.
+  Qed.
+
+  (* read-only: assigning to a name that an import just declared is error 44, whatever the callee *)
+  Theorem imported_name_is_const : forall st ext items st' x callee,
+    import_symbols ord_exports st ext items = (Ok, st') ->
+    In x (map fst (imported_list st ext items)) ->
+    exec_stmt_with callee st' (SAssign x) = (Err E_AssignToConstant, st').
+  Proof.
+    intros st ext items st' x callee H Hx.
+    apply import_symbols_exact in H. destruct H as (_ & Hvis & _).
+    destruct (Hvis x Hx) as (y & Hl & Hc & _).
+    simpl. erewrite scope_set_const; eauto.
+  Qed.
+
+  (* ---- missing module / library *)
+  Theorem import_missing_module : forall loader st imp,
+    fst (parse_lib_name (i_name imp)) = LibCustom ->
+    find_module st (i_name imp) = None ->
+    fs_find fs (path_of_name (i_name imp)) = None ->
+    eval_import_with fs libs ord_exports ord_nodes loader st imp = (Err E_ModuleNotFound, st).
+  Proof.
+    intros loader st imp H1 H2 H3. unfold eval_import_with. rewrite H1, H2, H3. reflexivity.
+  Qed.
+
+  Theorem import_missing_library : forall loader st imp,
+    fst (parse_lib_name (i_name imp)) = LibStd ->
+    lib_find libs (i_name imp) = None ->
+    fst (eval_import_with fs libs ord_exports ord_nodes loader st imp) = Err E_LibraryNotFound.
+  Proof.
+    intros loader st imp H1 H2. unfold eval_import_with. rewrite H1.
+    destruct (allocate_module st (i_name imp) None). rewrite H2. reflexivity.
+  Qed.
+End Imports.
